@@ -2104,9 +2104,9 @@ namespace
             auto str = preproc.preprocess(runtime, *pathinfo);
             if (str.has_value())
             {
-                auto r = right.data<d_string, std::string>();
+                // Parse the preprocessed content of the file (not the path string) and attribute it to that file
                 auto& parser = runtime.parser_sqf();
-                auto res = parser.parse(runtime, r, runtime.context_active().current_frame().diag_info_from_position().path);
+                auto res = parser.parse(runtime, *str, *pathinfo);
                 if (res.has_value())
                 {
                     auto context_weak = runtime.context_create();
